@@ -47,6 +47,10 @@ def run(chk, tier):
     chk.floor("R-PURE", "consulting functions examined", n, 100)
     chk.rule("R-REFRESH", "each lazily refreshed cache kind is refreshed by hwloc_topology_refresh() and by the tail of hwloc_topology_load() under its own NO_* flag")
     threads.refresh_complete(chk, P)
+    chk.rule("R-REFRESHALL", "the refresh-all functions validate every element: explored with one element whose fields are all 0, the per-element refresher is called on every path to the exit "
+             "(an element skipped under some condition stays invalid after load()/refresh(), and every reader then refreshes it itself: a write to the shared topology)")
+    nra = threads.refresh_every_element(chk, P)
+    chk.floor("R-REFRESHALL", "refresh-all functions", nra, 2)
     chk.rule("R-INITFINI", "the process-wide component reference count is released only by a holder: every hwloc_components_fini() is preceded on every path in its function by a call that took a reference, "
              "or sits in a frozen owner that tears its topology down (an unbalanced release tears the components down under another thread's live topology)")
     import refcount
